@@ -208,3 +208,19 @@ package massdb_v1
 //@   requires mdb != nil
 //@   assert-at call Remove#1 only-own-files: arg0 == mdb.filePathA
 //@   assert-at call Remove#2 only-own-files: arg0 == mdb.filePathB
+
+// ---- file effects (C11): who may remove files, and which
+//@ func (*MassDBV1).Plot
+//@   attr effect:fs.remove
+//@ func CreateDB
+//@   attr effect:fs.remove
+//@ func CreateHashMap
+//@   attr effect:fs.remove
+//@ func NewMassDBV1
+//@   attr effect:fs.remove
+//@ func createMapFile
+//@   attr effect:fs.remove
+//@   assert-at call createMapFile$1 removes-only-a-file-it-created: lastStatPath == filePath && !lastStatFound
+//@ func createMapFile$1
+//@   attr effect:fs.remove
+//@   assert-at call Remove removes-only-the-new-file: arg0 == filePath
